@@ -914,7 +914,7 @@ func checkC18(o checkOpts) int {
 		Coverage: map[string]interface{}{
 			"evaluations":            N,
 			"distinct_nontrivial":    len(ilv),
-			"rule":                   "one evaluation = one worker process: 2..64 simulated clients calling Encode/Decode on registry codec instances (and private low-level objects) under one explicit serial schedule drawn from VERIF_SEED (pin-and-sweep / round-robin / PCT / random-walk / sequential), race detector on; distinct = distinct SHA of the executed switch list projected to (task, site); a run is non-trivial when at least one context switch happened inside library code",
+			"rule":                   "one evaluation = one worker process: 2..64 simulated clients calling Encode/Decode on registry codec instances (and private low-level objects) under one explicit serial schedule drawn from VERIF_SEED (pin-and-sweep / round-robin / PCT / random-walk / sequential), plus the enumerated site sweep (codec x {Encode, Decode} x {private, shared, cross-sibling} with client A parked at each write-hot site it reaches), race detector on; distinct = distinct SHA of the executed switch list projected to (task, site); a run is non-trivial when at least one context switch happened inside library code",
 			"samples":                samples,
 			"runs_per_hour":          float64(N) / runWall * 3600,
 			"simulated_steps":        steps,
